@@ -94,6 +94,9 @@ func (vC08Hook) OnWrite(ce *CheckedEntry, _ []Field) { vrt.Event("history-hook:"
 
 const vC08HistoryMenu = 8
 
+// vC08NondetGets: how many of the observed call's first sync.Pool.Get calls are nondeterministic.
+const vC08NondetGets = 4
+
 func vC08Case(nHist int, fieldMenu []int) {
 	cfg := vC08Cfg
 	encKind := vrt.Choice("enc", 2)
@@ -107,12 +110,12 @@ func vC08Case(nHist int, fieldMenu []int) {
 	_, ref := vNewRef() // the reference tree is not used here; only the fields are
 	sel := fieldMenu[vrt.Choice("field", len(fieldMenu))]
 	vLiteNow = true
-	ctx := vMakeField("c", []int{0, 16}[vrt.Choice("ctx", 2)], "ck", ref, &cfg, 0)
-	vLiteNow = len(fieldMenu) == len(vLiteMenu)
+	ctx := vMakeField("c", []int{0, 16, 25}[vrt.Choice("ctx", 3)], "ck", ref, &cfg, 0)
+	vLiteNow = len(fieldMenu) <= len(vLiteMenu)+1
 	f := vMakeField("b", sel, "k", ref, &cfg, 0)
 	vLiteNow = false
 	core := NewCore(enc, sink, DebugLevel).With([]Field{ctx})
-	ent := Entry{Level: WarnLevel, Message: "m" + vrt.String("msg", 1), LoggerName: "n", Time: time.Unix(1, 2),
+	ent := Entry{Level: WarnLevel, Message: "m" + vC08Letter(), LoggerName: "n", Time: time.Unix(1, 2),
 		Caller: EntryCaller{Defined: true, File: "/x/y.go", Line: 3, Function: "p.f"}}
 	viaCheck := vrt.Choice("via", 2) == 1
 	runB := func() []byte {
@@ -138,7 +141,7 @@ func vC08Case(nHist int, fieldMenu []int) {
 		// the history itself reuses pooled objects last-in-first-out; what it leaves in the pools is what matters
 		vC08History(vrt.Choice(fmt.Sprintf("hist%d", i), vC08HistoryMenu), fmt.Sprint(i))
 	}
-	vrt.PoolNondet(true)
+	vrt.PoolNondetFirst(vrt.Pick(4, 6), vrt.Pick(3, 0))
 	vrt.ResetEvents()
 	again := runB()
 	vrt.PoolNondet(false)
@@ -151,8 +154,8 @@ func vC08Case(nHist int, fieldMenu []int) {
 	vrt.Cover("done")
 }
 
-//verif: prop=C08 bounds="observed call: JSON or console ioCore with 1 context field (number or open namespace) and 1 call-site field (lite menu: number, string, namespace, object, array, inline, failing marshalers), 1 symbolic message byte, through Write or Check+Write; first on empty pools, then after 1 history operation from an 8-entry menu (long nested JSON entry with namespaces left open, reflected values, marshalers failing midway, console entry, 3-core checked entry with after-hook, error group, same-shaped call with other values) with every sync.Pool.Get of the observed call returning any pooled object or a new one (the history itself reuses last-in-first-out): byte-identical output"
-func VC08History1() { vC08Case(1, vLiteMenu) }
+//verif: prop=C08 bounds="observed call: JSON or console ioCore with 1 context field (number, open namespace or reflected value) and 1 call-site field (lite menu: number, string, namespace, object, array, inline, failing marshalers; plus reflected values), 1 symbolic message letter, through Write or Check+Write; first on empty pools, then after 1 history operation from an 8-entry menu (long nested JSON entry with namespaces left open, reflected values, marshalers failing midway, console entry, 3-core checked entry with after-hook, error group, same-shaped call with other values) with each of the first 4 sync.Pool.Get calls of the observed call returning the newest pooled object, the oldest one or a new one (thorough: first 6 Gets, any pooled object), later ones and the history itself reusing last-in-first-out: byte-identical output"
+func VC08History1() { vC08Case(1, append(append([]int{}, vLiteMenu...), 25)) }
 
 //verif: prop=C08 tier=thorough bounds="as VC08History1 with the full 26-template field menu"
 func VC08History1Full() { vC08Case(1, vFullMenu) }
@@ -188,7 +191,7 @@ func vC08Interference() {
 	f := vMakeField("b", vLiteMenu[vrt.Choice("field", len(vLiteMenu))], "k", ref, &cfg, 0)
 	vLiteNow = false
 	core := NewCore(enc, sink, DebugLevel).With([]Field{{Key: "ck", Type: Int64Type, Integer: 1}})
-	ent := Entry{Level: WarnLevel, Message: "m" + vrt.String("msg", 1), LoggerName: "n", Time: time.Unix(1, 2),
+	ent := Entry{Level: WarnLevel, Message: "m" + vC08Letter(), LoggerName: "n", Time: time.Unix(1, 2),
 		Caller: EntryCaller{Defined: true, File: "/x/y.go", Line: 3, Function: "p.f"}, Stack: "st"}
 	viaCheck := vrt.Choice("via", 2) == 1
 	runB := func() []byte {
@@ -223,3 +226,10 @@ func vC08Interference() {
 
 //verif: prop=C08 bounds="observed call (JSON or console ioCore, 1 context field, 1 call-site field from the lite menu, Write or Check+Write) with another goroutine's complete log call (console entry, same-shaped JSON call, long nested JSON entry) scheduled right after its k-th sync.Pool.Put, k in 0..7: output byte-identical to the undisturbed call. Interference is placed at Put points only (where ownership of a pooled object ends); other preemption points are C04/C09's subject"
 func VC08Interference() { vC08Interference() }
+
+// vC08Letter is a symbolic lower-case letter (no escaping classes: the content is still solver-quantified).
+func vC08Letter() string {
+	c := vrt.Byte("msg")
+	vrt.Assume(c >= 'a' && c <= 'z')
+	return string([]byte{c})
+}
